@@ -191,6 +191,7 @@ type Spec struct {
 	S string           `json:"s,omitempty"`
 	I int64            `json:"i,omitempty"` // ints, bools (0/1), number of AddError calls on a Fallible
 	X float64          `json:"x,omitempty"`
+	C int              `json:"c,omitempty"` // slices: spare capacity (slices grown by append, or emptied by Remove, have some)
 }
 
 type genState struct {
@@ -273,6 +274,9 @@ func (g *genState) spec(t reflect.Type, depth int) *Spec {
 			return &Spec{N: true}
 		}
 		s := &Spec{E: []*Spec{}}
+		if g.pick(3, "sparecap") == 0 {
+			s.C = 1 + g.pick(2, "sparecapn")
+		}
 		if mode == 1 || (exhausted && isNodeType(t.Elem())) {
 			return s
 		}
@@ -427,7 +431,7 @@ func fill(dst reflect.Value, s *Spec) {
 		if s.N {
 			return
 		}
-		sl := reflect.MakeSlice(t, len(s.E), len(s.E))
+		sl := reflect.MakeSlice(t, len(s.E), len(s.E)+s.C)
 		for i, e := range s.E {
 			fill(sl.Index(i), e)
 		}
